@@ -572,6 +572,12 @@ func (x *Exec) applyContract(st *State, fr *Frame, con *Contract, name string, s
 		}
 		t, err := x.trClause(post, c)
 		if err != nil {
+			if con.Mode != x.mode && strings.Contains(err.Error(), "needs arith bv") {
+				// a bit-vector clause of a callee verified in bv mode cannot be stated in this caller's integer mode:
+				// the caller simply does not learn it (fewer facts, sound)
+				x.assumed["clause ["+c.Label+"] of "+shortName(name)+" is not visible to an integer-mode caller"] = true
+				continue
+			}
 			x.unsupported("%v", err)
 		}
 		st.assume(t)
